@@ -52,6 +52,7 @@ pub struct RestartCase {
 pub fn make_case(seed: u64, tier: Tier) -> RestartCase {
     let (mut first, _) = w1::make_case(seed, &tuning(tier));
     crate::scen::checker::ensure_checker_tags(&mut first.problem);
+    crate::scen::checker::ensure_place_discriminators(&mut first.problem);
     let seed2 = Prng::derive(seed, "second-run").next_u64();
     let c = gen::config::generate(seed2, &gen::config::ConfigLimits { max_generations: tuning(tier).max_generations });
     let mut second_spec = RunSpec::from_seed(seed2);
@@ -213,8 +214,18 @@ fn record(case: &RestartCase, seed: u64) -> CaseRecord {
             if let (Ok(m), Ok(v)) = (crate::oracle::model::PModel::parse(&case.first.problem, &case.first.matrices), serde_json::from_str::<Value>(&doc)) {
                 if let Ok(s) = crate::oracle::model::SSolution::parse(&v) {
                     let (issues, _) = crate::oracle::check::check_all(&m, &s);
+                    let domain = w1::domain_sig(&case.first.problem, &case.first.matrices, None);
+                    let flagged = issues.iter().any(|i| i.rule == "unreachable-leg");
                     for i in issues {
-                        rec.issues.push(IssueRec { prop: i.prop.to_string(), rule: i.rule.to_string(), sig: "restart".into(), msg: i.msg });
+                        let mut sig: Vec<&str> = domain.split('|').filter(|t| !t.is_empty()).collect();
+                        if !i.tag.is_empty() {
+                            sig.push(i.tag);
+                        }
+                        if flagged {
+                            sig.push("flagged-leg-in-solution");
+                        }
+                        sig.push("restart");
+                        rec.issues.push(IssueRec { prop: i.prop.to_string(), rule: i.rule.to_string(), sig: sig.join("|"), msg: format!("solve seeded with an initial solution: {}", i.msg) });
                     }
                 }
             }
